@@ -27,6 +27,18 @@ impl Arena {
         })
     }
 
+    /// Read-only view of the arena's layout
+    #[cfg(lasso_verif)]
+    pub(crate) fn verif_audit(&self) -> crate::verif::ArenaAudit {
+        crate::verif::ArenaAudit {
+            lockfree: false,
+            blocks: self.buckets.iter().map(Bucket::verif_audit).collect(),
+            bucket_capacity: self.bucket_capacity.get(),
+            memory_usage: self.memory_usage,
+            max_memory_usage: self.max_memory_usage,
+        }
+    }
+
     pub const fn memory_usage(&self) -> usize {
         self.memory_usage
     }
